@@ -70,9 +70,7 @@ impl Header {
     where
         W: io::Write,
     {
-        writer.write_all(&MAGIC)?;
         let version_bytes = self.version.to_header_bytes();
-        writer.write_all(&version_bytes)?;
 
         let fmt_dict = self.dict.to_string();
 
@@ -86,8 +84,16 @@ impl Header {
         let pad_len = ALIGN - rem;
         assert_eq!((len + pad_len) % ALIGN, 0);
 
+        // The header length may not fit its field (thousands of axes): find out before
+        // anything is written
         let header_len = fmt_dict.len() + pad_len;
-        self.version.write_header_len(header_len, writer)?;
+        let mut header_len_bytes = Vec::new();
+        self.version
+            .write_header_len(header_len, &mut header_len_bytes)?;
+
+        writer.write_all(&MAGIC)?;
+        writer.write_all(&version_bytes)?;
+        writer.write_all(&header_len_bytes)?;
 
         writer.write_all(&fmt_dict.into_bytes())?;
 
@@ -95,6 +101,13 @@ impl Header {
         pad[pad_len - 1] = b'\n';
         writer.write_all(&pad[..])
     }
+}
+
+fn header_len_error(header_len: usize) -> io::Error {
+    io::Error::new(
+        io::ErrorKind::InvalidInput,
+        format!("npy header of {header_len} bytes is too long for the header length field"),
+    )
 }
 
 /// A npy header literal dict.
@@ -226,12 +239,12 @@ impl Version {
         match self {
             Version::V1 => writer.write_all(
                 &u16::try_from(header_len)
-                    .expect("cannot convert npy header_len to u16")
+                    .map_err(|_| header_len_error(header_len))?
                     .to_le_bytes(),
             ),
             Version::V2 | Version::V3 => writer.write_all(
                 &u32::try_from(header_len)
-                    .expect("cannot convert npy header_len to u16")
+                    .map_err(|_| header_len_error(header_len))?
                     .to_le_bytes(),
             ),
         }
